@@ -48,6 +48,19 @@ CLAIMED = {
              'elements that are cells of the workbook. No writes (C01 owns them).',
         technique=TECH + ': enumerated first-touch permutations x seeded access paths vs. reference model',
         design='DESIGN.md section 3 C05'),
+    'C06': dict(
+        level='exploration',
+        text='Workload A: the C01 histories on acyclic workbooks compiled in iterative mode (workbook '
+             'setting or cycles= override, drawn iterations/tolerance, all origins, restarts), every read '
+             'compared exactly with the plain reference. Workload B: random contracting linear circular '
+             'blocks (rows written out or through SUM over the cycle range) with a PROBE plugin as pass '
+             'clock; per evaluate: passes <= iterations, returned value is the last pass value, early stop '
+             'implies every tag moved <= tolerance in the last pass and the result is within '
+             'q/(1-q) x tolerance of the numpy fixed point; set_value on b between evaluations.',
+        note='Trusted: PROBE plugin counts passes; numpy.linalg.solve for the fixed point; slack 1e-5 is '
+             'pycel\'s documented comparison slack. Systems of 2-5 cells, iterations <= 200.',
+        technique=TECH + ': seeded histories; logical pass clock through a plugin function; analytic fixed-point oracle',
+        design='DESIGN.md section 3 C06'),
     'C08': dict(
         level='exploration',
         text='Seeded histories around one trim_graph(inputs, outputs): writes/reads before it, then input '
@@ -78,7 +91,7 @@ NOT_APPLICABLE = {
     'C20': 'text functions are pure string functions',
 }
 
-PENDING = {k: 'applicable (see DESIGN.md) but its check is not built yet in this snapshot; not claimed until it is' for k in ('C03', 'C06', 'C07', 'C09', 'C12')}
+PENDING = {k: 'applicable (see DESIGN.md) but its check is not built yet in this snapshot; not claimed until it is' for k in ('C03', 'C07', 'C09', 'C12')}
 
 
 def main():
